@@ -331,15 +331,29 @@ func runC19(c *vc.Ctx) error {
 		"Oracles: at quiescent points (every running replica has applied == max commit before and after the read) the keys log/n/s/h.f of each source equal the model at the replica's synced position, positions never decrease between quiescent points (also across restarts) nor below an acknowledged ordinal; " +
 		"GetSyncedRaft polled by the driver after every call, by a gRPC poller and by an in-process poller never decreases within one life of a node; effects read after a position on the same node cover that position. " +
 		"evaluations = scenarios that ran to their final check; an execution is non-trivial when it contained >=1 delivery of an entry at or below the synced position read just before the call AND >=1 receiver restart or raft snapshot; " +
-		"distinct = distinct sequences of (source, ordinal range, injected fault, outcome, receiver fault) fingerprints."
+		"distinct = distinct sequences of (source, ordinal range, injected fault, outcome, receiver fault) fingerprints. " +
+		"Thorough tier additionally: the same scenarios under -race (reports whose two accesses lie in remote_sync_mgr.go/node.go/grpc_api.go are violations race/<funcs>) and two end-to-end runs (mem, pebble) with the REAL sender: " +
+		"source voter + role_log_syncer learner (test://127.0.0.1:<dest grpc>) + single-replica destination, one OS process each, 4 redis clients writing unique-id RPUSH/INCR/APPEND/HINCRBY groups to the source while learner and destination are stopped/started gracefully and killed -9 and respawned " +
+		"(mem: also a learner kept down until the voter must send its snapshot, i.e. the remote snapshot transfer+apply path); oracle: at settle (destination synced index >= source applied index) destination content == source content for every written key, every id once."
 	c.Ev.Assume("engines mem and pebble only (no verdict for rocksdb)")
-	c.Ev.Assume("receiver restarts are graceful (Close/Stop + start on the same directory); kill -9 of the receiver is covered only by the end-to-end variant when it runs")
+	c.Ev.Assume("in-process receiver restarts are graceful (Close/Stop + start on the same directory); kill -9 of the receiver and of the real sender is covered only by the end-to-end variant (thorough tier)")
+	c.Ev.Assume("a remote snapshot transfer that SUCCEEDS is only exercised by the end-to-end mem run (local-copy fallback enabled by node.EnableForTest, faithful only for one-file mem checkpoints); the in-process variant only plays a transfer whose files cannot be fetched, so the errIgnoredRemoteApply path of postprocessRemoteApply is not exercised")
 	c.Ev.Assume("the receiver runs in syncer-only mode (stand-by cluster), so the timestamp conflict filter of master-master mode is not part of the checked mechanism")
 	c.Ev.Assume("a transiently lower position reported right after a restart, while the node still replays its own log, is counted (transient_position_below_prestop_right_after_restart) but is not a violation: positions are compared within one life of a node and across restarts at quiescent points")
 	c.Ev.Assume("replays re-execute the recorded scenario (same plan); goroutine timing of concurrent senders, cancel delays and leader-transfer offsets is re-sampled, so racy failures are approximately replayable")
 
 	var plain, raced []scenarioCfg
 	if c.Replay != "" {
+		if eng, seed, ok := loadE2EReplay(c.Replay); ok {
+			// end-to-end witness: same engine, same seed => same fault plan (process timing re-sampled)
+			c.Seed = seed
+			idx := 0
+			if eng == "pebble" {
+				idx = 1
+			}
+			absorbE2E(c, &e2eResult{Runs: []*e2eRunResult{runE2EOne(c, idx, eng)}})
+			return nil
+		}
 		sc, variant, err := loadReplay(c.Replay)
 		if err != nil {
 			return err
@@ -469,6 +483,21 @@ func absorb(c *vc.Ctx, cp *childProc, res scenarioResult) {
 	}
 	c.Ev.Sample(3, res.Sample)
 	c.Ev.Max("scenario_wall_s_max", int64(res.WallS))
+}
+
+func loadE2EReplay(path string) (string, int64, bool) {
+	var doc struct {
+		Witness struct {
+			Engine string   `json:"engine"`
+			Seed   int64    `json:"seed"`
+			Events []string `json:"events"`
+		} `json:"witness"`
+	}
+	b, err := ioutil.ReadFile(path)
+	if err != nil || json.Unmarshal(b, &doc) != nil || doc.Witness.Engine == "" || len(doc.Witness.Events) == 0 {
+		return "", 0, false
+	}
+	return doc.Witness.Engine, doc.Witness.Seed, true
 }
 
 func loadReplay(path string) (scenarioCfg, string, error) {
